@@ -542,3 +542,41 @@ Example C11_ex_text_bounds :
   value_of_text "2024-02-29T15:00:00+00:00" = VDT 1709218800000000 (Some 0) /\
   days_of_civil 1970 1 1 = 0 /\ days_of_civil 1 1 1 = -719162.
 Proof. vm_compute. repeat split. Qed.
+
+(* ------------------------------------------------------------------ round 5: the source of the draws *)
+
+(* "Attainable" is about what the user's processes can draw.  For a fixed recipe and position of the run
+   the draw is a function of the entropy the process started with (RandFuncs.number_at / values_over).
+   The check runs the recipe in several fresh processes and looks at each position:
+   the values are equal in all processes exactly when the draws are (random_number is injective in the draw) ... *)
+Theorem C11_stuck_values_iff_stuck_draws :
+  forall mn mx step draw es, mn <= mx -> 1 <= step ->
+  (forall e, In e es -> 0 <= draw e < (mx - mn) / step + 1) ->
+  (stuck (number_at mn mx step draw) es <-> stuck draw es).
+Proof. exact stuck_values_iff_stuck_draws. Qed.
+Print Assumptions C11_stuck_values_iff_stuck_draws.
+
+(* ... a position whose draw no longer depends on the process (the generator was re-seeded with a constant
+   before it) shows one lattice point only: for every lattice with at least two points and every list of
+   processes, the two ends are never both produced ... *)
+Theorem C11_reseeded_source_misses_an_end :
+  forall mn mx step draw es, mn + step <= mx -> 1 <= step -> stuck draw es ->
+  ~ (In (Ok mn) (values_over mn mx step draw es) /\
+     In (Ok (mx - (mx - mn) mod step)) (values_over mn mx step draw es)).
+Proof. exact reseeded_source_misses_an_end. Qed.
+Print Assumptions C11_reseeded_source_misses_an_end.
+
+(* ... whereas a source that can deliver the lowest and the highest draw shows both ends in two processes. *)
+Theorem C11_free_source_reaches_both_ends :
+  forall mn mx step draw e0 e1, mn <= mx -> 1 <= step -> draw e0 = 0 -> draw e1 = (mx - mn) / step ->
+  values_over mn mx step draw [e0; e1] = [Ok mn; Ok (mx - (mx - mn) mod step)].
+Proof. exact free_source_reaches_both_ends. Qed.
+Print Assumptions C11_free_source_reaches_both_ends.
+
+(* non-vacuity: the demo of notes/missed/r5_C11_3 (random_number(1, 2) after a unique_id: every process draws 0)
+   against a free source *)
+Example C11_ex_source :
+  values_over 1 2 1 (fun _ => 0) [11; 12; 13] = [Ok 1; Ok 1; Ok 1] /\
+  values_over 1 2 1 (fun e => e mod 2) [11; 12; 13] = [Ok 2; Ok 1; Ok 2] /\
+  values_over 1 10 3 (fun e => e) [0; 3] = [Ok 1; Ok 10].
+Proof. vm_compute. repeat split. Qed.
